@@ -16,7 +16,7 @@ THEOREMS = ["Pyro.C09.C09_gen_tests", "Pyro.C09.C09_gen_shape", "Pyro.C09.C09_ge
             "Pyro.C09.C09_gen_behavior", "Pyro.C09.C09_behavior_modes",
             "Pyro.C09.C09_single", "Pyro.C09.C09_single_partial", "Pyro.C09.C09_single_falsy_refuted",
             "Pyro.C09.C09_session", "Pyro.C09.C09_session_partial", "Pyro.C09.C09_session_falsy_refuted",
-            "Pyro.C09.C09_no_sharing", "Pyro.C09.C09_session_private", "Pyro.C09.C09_session_dropped",
+            "Pyro.C09.C09_no_sharing", "Pyro.C09.C09_session_private", "Pyro.C09.C09_session_dropped", "Pyro.C09.C09_close_empties",
             "Pyro.C09.C09_percall", "Pyro.C09.C09_created_fresh", "Pyro.C09.C09_creator_once",
             "Pyro.C09.C09_created_count", "Pyro.C09.C09_failed_creation_stores_nothing", "Pyro.C09.C09_wf",
             "Pyro.C09.C09_single_concurrent", "Pyro.Lock.atomic", "Pyro.Lock.book"]
@@ -27,11 +27,14 @@ RULE = ("(a) histories: 1-4 registered classes (mode single/session/percall/unde
         "optionally inherited from a decorated base class by the registered subclass; 1-3 Daemon objects in the process serving the SAME classes (alive together, and shut down and replaced by a new Daemon "
         "mid-history), 1-4 connections, 1-24 events (daemon restart, open with/without keep_open, close — also of connections whose socket fails in shutdown(), call carrying what the "
         "constructor/creator does if run: ok truthy|falsy / wrong type / raises ArithmeticError / raises a TypeError from its own "
-        "body always or on its first run only), run on the REAL daemons through _getInstance or through handleRequest "
+        "body always or on its first run only / raises SystemExit / the remote method is interrupted by KeyboardInterrupt after the "
+        "instance was handed out; Daemon.close() called while its connections live on), run on the REAL daemons through "
+        "_getInstance, through handleRequest with a real INVOKE message, or with every connection served by the real "
+        "thread-server job svr_threads.ClientConnectionJob in a worker thread driven in lockstep, "
         "with a real INVOKE message, vs the Lean model line by line (result of every call: instance by creation order, "
         "created?, creator invoked how often?; final tables; m daemons = one model daemon over disjoint labels); (b) behavior(): all 2x5x5 argument shapes; (c) races: small sets of "
         "threads making first calls on `single` classes on the REAL daemon under the deterministic scheduler (yield points: "
-        "lock, every table access, constructor, creator), all schedules up to a preemption bound (2 quick / 3 thorough) then "
+        "lock, every table access, constructor, creator; some threads leave and re-enter Daemon.requestLoop), all schedules up to a preemption bound (2 quick / 3 thorough) then "
         "seeded random ones; each outcome is judged directly and compared with the model run in lock-acquisition order. "
         "Non-trivial = a history with >= 1 re-used instance or >= 2 creations / a schedule with >= 2 context switches; "
         "distinct = distinct input line / distinct (program, schedule)")
@@ -66,6 +69,8 @@ def gen_outcome(rng, truth, falsy_bias):
     q = rng.random()
     t = 1 if truth == "plain" else (0 if rng.random() < falsy_bias else 1)
     e = rng.randrange(4)
+    if q < 0.02:
+        return ["bx"]                 # user code raises SystemExit: not an Exception
     if q < 0.07:
         return ["rs"]
     if q < 0.12:
@@ -74,6 +79,8 @@ def gen_outcome(rng, truth, falsy_bias):
         return ["te1", t, e]          # ... on its first run for this call only
     if q < 0.25:
         return ["wt", t, e]
+    if q < 0.28:
+        return ["ok", t, e, "mx"]     # the remote method itself is interrupted (KeyboardInterrupt) after the instance was handed out
     return ["ok", t, e]
 
 
@@ -92,13 +99,13 @@ def gen_history(rng):
     nconn = max(ndaemon, rng.choice([1, 2, 2, 3, 4]))
     n = rng.choice([1, 2, 4, 6, 9, 14, 24])
     falsy_bias = rng.choice([0.0, 0.3, 0.6, 1.0])
-    restart = rng.choice([0.0, 0.0, 0.05, 0.12])          # a daemon is shut down and replaced by a new one
+    restart = rng.choice([0.0, 0.0, 0.05, 0.12])          # a daemon is shut down and replaced by a new one / just close()d
     events = []
     last = None
     for _ in range(n):
         r = rng.random()
         if r < restart:
-            events.append(["D", rng.randrange(ndaemon)])
+            events.append(["D", rng.randrange(ndaemon)] if rng.random() < 0.6 else ["Z", rng.randrange(ndaemon)])
         elif r < restart + 0.07:
             events.append(["O", rng.randrange(nconn), 1 if rng.random() < 0.2 else 0])
         elif r < restart + 0.17:
@@ -111,8 +118,16 @@ def gen_history(rng):
             else:
                 c, k = rng.randrange(nconn), rng.randrange(ncls)
             last = (c, k)
-            events.append(["C", c, k, gen_outcome(rng, classes[k][2], falsy_bias)])
-    h = {"classes": classes, "nconn": nconn, "events": events, "path": "request" if rng.random() < 0.3 else "direct"}
+            o = gen_outcome(rng, classes[k][2], falsy_bias)
+            events.append(["C", c, k, o])
+            if o[0] == "bx" or o[-1] == "mx":
+                events.append(["X", c])       # a BaseException ends the connection (the server-side job gives up on it)
+    h = {"classes": classes, "nconn": nconn, "events": events,
+         "path": _pick(rng, [("direct", 55), ("request", 25), ("job", 20)])}
+    if h["path"] == "job":
+        for ev in events:
+            if ev[0] == "O":
+                ev[2] = 0          # keep_open connections are not served by the thread server's job
     if ndaemon > 1:
         h["ndaemon"] = ndaemon
     if rng.random() < 0.3:
@@ -131,6 +146,9 @@ RACE_PROGRAMS = [
     {"classes": [["falsy", "bool", "default"]], "threads": [[[0, ["ok", 0, 0]], [0, ["ok", 1, 0]]], [[0, ["ok", 1, 1]]]]},
     {"classes": [["callable:default", "plain", "default"]], "threads": [[[0, ["te1", 1, 0]]], [[0, ["ok", 1, 1]]]]},
     {"classes": [["callable:varargs", "len", "default"]], "threads": [[[0, ["te"]]], [[0, ["te1", 0, 1]]], [[0, ["ok", 0, 2]]]]},
+    # the daemon's request loop is left and entered again (["L"]) while first calls are in progress
+    {"classes": [["none", "plain", "default"]], "threads": [[[0, ["ok", 1, 0]]], [["L"]], [[0, ["ok", 1, 1]]]]},
+    {"classes": [["callable", "bool", "default"]], "threads": [[[0, ["ok", 0, 0]], ["L"]], [["L"], [0, ["ok", 0, 1]]]]},
 ]
 
 
@@ -148,7 +166,11 @@ def gen_race(rng):
             o = (["rs"] if q < 0.1 else ["te"] if q < 0.15 else ["te1", t, rng.randrange(3)] if q < 0.2
                  else ["wt", t, rng.randrange(3)] if q < 0.28 else ["ok", t, rng.randrange(3)])
             calls.append([k, o])
+        if rng.random() < 0.25:
+            calls.insert(rng.randrange(len(calls) + 1), ["L"])
         threads.append(calls)
+    if rng.random() < 0.25:
+        threads.append([["L"]])
     return {"classes": classes, "threads": threads}
 
 
@@ -203,9 +225,10 @@ def _histories(ctx, n, rng_name, with_model):
         ctx.count("path:" + hist.get("path", "direct"))
         ctx.count("daemons:%d" % hist.get("ndaemon", 1))
         ctx.count("daemon-restarts", sum(1 for ev in hist["events"] if ev[0] == "D"))
+        ctx.count("daemon-close-calls", sum(1 for ev in hist["events"] if ev[0] == "Z"))
         for ev in hist["events"]:
             if ev[0] == "C":
-                ctx.count("outcome:" + ev[3][0])
+                ctx.count("outcome:" + ev[3][0] + ("+mx" if ev[3][-1] == "mx" else ""))
         for o in obs:
             ctx.count("obs:" + (("S-created" if o[4] else "S-reused") if o[0] == "S" else o[0]))
         line = R.hist_line(hist)
@@ -358,7 +381,7 @@ def _races(ctx, with_model):
 def correspondence(ctx):
     common.repo_on_path()
     try:
-        _histories(ctx, ctx.n(6000, 60000), "hist", True)
+        _histories(ctx, ctx.n(4000, 60000), "hist", True)
         _behavior(ctx)
         _races(ctx, True)
     finally:
@@ -368,7 +391,7 @@ def correspondence(ctx):
 def oracle(ctx):
     common.repo_on_path()
     try:
-        _histories(ctx, ctx.n(6000, 60000), "oracle-hist" + ("-search" if ctx.search_mode else ""), False)
+        _histories(ctx, ctx.n(4000, 60000), "oracle-hist" + ("-search" if ctx.search_mode else ""), False)
         _races(ctx, False)
     finally:
         close_world()
